@@ -245,6 +245,16 @@ func (e *ErrModel) Invoke(in *Interp, p *Path, method string, args []Val) Val {
 	return nil
 }
 
+func (in *Interp) findMethod(t types.Type, name string) *ssa.Function {
+	ms := in.prog.MethodSets.MethodSet(t)
+	for i := 0; i < ms.Len(); i++ {
+		if ms.At(i).Obj().Name() == name {
+			return in.prog.MethodValue(ms.At(i))
+		}
+	}
+	return nil
+}
+
 func (in *Interp) errType() types.Type {
 	return types.Universe.Lookup("error").Type()
 }
@@ -302,11 +312,11 @@ func (in *Interp) formatVal(p *Path, verb byte, flags string, v Val, lenient boo
 			return concStr(ov.name)
 		}
 		if verb == 's' || verb == 'v' || verb == 'q' {
-			if m := in.prog.LookupMethod(iv.t, nil, "Error"); m != nil {
+			if m := in.findMethod(iv.t, "Error"); m != nil {
 				r := in.callFunction(p, nil, FuncVal{fn: m}, []Val{iv.v}, nil)
 				return r.(StringVal)
 			}
-			if m := in.prog.LookupMethod(iv.t, nil, "String"); m != nil && !isString(iv.t) {
+			if m := in.findMethod(iv.t, "String"); m != nil && !isString(iv.t) {
 				if _, isSl := iv.t.Underlying().(*types.Slice); !isSl {
 					r := in.callFunction(p, nil, FuncVal{fn: m}, []Val{iv.v}, nil)
 					return r.(StringVal)
